@@ -408,7 +408,7 @@ func symBinop(op token.Token, t types.Type, x, y value) value {
 				if b.ow > ow {
 					ow = b.ow
 				}
-				if ow+1 <= 53 { // the exact result still fits a double's significand
+				if ow+1 <= 54 { // a 54-bit two's complement integer (magnitude <= 2^53) is an exact double
 					r.origin = &sym{e: "(" + bop + " " + a.origin.e + " " + b.origin.e + ")", k: symBV, w: 64, gk: types.Int64}
 					r.ow = ow + 1
 				}
